@@ -315,7 +315,10 @@ func resourceShapes(thorough bool) []shape {
 	add("many-comments", func() string { return repeat("// c\n", 200000) + "S1F1\n." })
 	add("wide-list", func() string { return "S1F1\n<L\n" + repeat("<U1 1>\n", 300000) + ">\n." })
 	add("wide-values", func() string { return "S1F1\n<U1 " + repeat("1 ", 1000000) + ">\n." })
-	hints := []string{"2147483647", "2000000000", "1073741824", "..2147483647", "0..2147483647", "2147483647..2147483647", "16777216"}
+	hints := []string{"2147483647", "2000000000", "1073741824", "..2147483647", "0..2147483647", "2147483647..2147483647", "16777216",
+		// at and beyond the integer widths a size-hint parser may use
+		"2147483648", "4294967295", "4294967296", "9223372036854775807", "..9223372036854775807", "1..9223372036854775807", "9223372036854775807..",
+		"9223372036854775808", "18446744073709551615", "18446744073709551616"}
 	for _, typ := range []string{"L", "A", "J", "W", "B", "BOOLEAN", "I1", "I8", "U1", "U8", "F4", "F8"} {
 		for _, h := range hints {
 			typ, h := typ, h
@@ -412,7 +415,7 @@ func runChild(dir, name, input string) (ok bool, detail string) {
 
 func TestC14Resources(t *testing.T) {
 	defer ev.Flush()
-	ev.Rule("resource shapes (parametric families): list nesting 1e3..4e6 deep (open, closed, hinted), 2e4 header-only / small messages, a 1e5-digit numeric token, a 4 MiB quoted run, 1e5 unterminated quotes, 1 Mi backslashes, 4 MiB unterminated comment, 2e5 comments, 3e5 list children, 1e6 values, size hints 2^24..2^31-1 in every form on every item type, nested and repeated. Each input is parsed by every entry point in strict and non-strict mode in a CHILD PROCESS (this test binary re-executed) under ulimit -v 4 GiB, Go's default 1 GB stack cap and a budget of 240 s of CPU time (ulimit -t; wall-clock time is not an oracle); death by fatal error, signal or CPU-limit is the violation. Non-trivial: every shape (all have size parameter >= 1000 or a hint >= 2^24); distinct by shape.")
+	ev.Rule("resource shapes (parametric families): list nesting 1e3..4e6 deep (open, closed, hinted), 2e4 header-only / small messages, a 1e5-digit numeric token, a 4 MiB quoted run, 1e5 unterminated quotes, 1 Mi backslashes, 4 MiB unterminated comment, 2e5 comments, 3e5 list children, 1e6 values, size hints 2^24..2^31-1 and 2^31, 2^32-1, 2^32, 2^63-1, 2^63, 2^64-1, 2^64 in every form on every item type, nested and repeated. Each input is parsed by every entry point in strict and non-strict mode in a CHILD PROCESS (this test binary re-executed) under ulimit -v 4 GiB, Go's default 1 GB stack cap and a budget of 240 s of CPU time (ulimit -t; wall-clock time is not an oracle); death by fatal error, signal or CPU-limit is the violation. Non-trivial: every shape (all have size parameter >= 1000 or a hint >= 2^24); distinct by shape.")
 	dir := os.Getenv("VERIF_SCRATCH")
 	if dir == "" {
 		dir = t.TempDir()
